@@ -366,6 +366,98 @@ theorem slppReadL_written {χ : Type} (C : CodecT χ) (T : TextOracle) (g : PGam
   | false => simpa using peppiRead_written T g startBytes endBytes true hstart hend hgecko (fun _ => rfl)
   | true => simpa using peppiRead_written_skip T g startBytes endBytes true hstart hend hgecko (fun _ => rfl)
 
+/-! ### no byte string makes the reader panic -/
+
+theorem classify_cases {χ : Type} (C : Codec χ) (e : Bytes × Bytes) :
+    classify C e = .peppiJson (C.decPeppi e.2) ∨ classify C e = .startRaw e.2 ∨ classify C e = .endRaw e.2 ∨
+    classify C e = .metadataJson (C.decMeta e.2) ∨ classify C e = .geckoRaw e.2 ∨
+    classify C e = .framesArrow (C.decFrames e.2).1 (C.decFrames e.2).2 ∨ classify C e = .other := by
+  unfold classify
+  split
+  · exact .inl rfl
+  · split
+    · exact .inr (.inl rfl)
+    · split
+      · exact .inr (.inr (.inl rfl))
+      · split
+        · exact .inr (.inr (.inr (.inl rfl)))
+        · split
+          · exact .inr (.inr (.inr (.inr (.inl rfl))))
+          · split
+            · exact .inr (.inr (.inr (.inr (.inr (.inl rfl)))))
+            · exact .inr (.inr (.inr (.inr (.inr (.inr rfl)))))
+
+theorem finish_noPanic {χ : Type} (acc : PAcc χ) (f : Option χ) (s : String) : finish acc f ≠ .panic s := by
+  unfold finish
+  split
+  · simp
+  · split <;> simp
+
+theorem pstep_noPanic {χ : Type} (C : CodecT χ) (T : TextOracle) (skip : Bool) (acc : PAcc χ) (it : TItem) (r : Res (PGame χ))
+    (h : pstep T skip acc (classifyT C.toCodec it) = .inl r) (s : String) : r ≠ .panic s := by
+  cases it with
+  | broken => simp only [classifyT, pstep] at h; cases h; simp
+  | entry n b =>
+    simp only [classifyT] at h
+    rcases classify_cases C.toCodec (n, b) with hc | hc | hc | hc | hc | hc | hc <;> rw [hc] at h <;> simp only [pstep] at h
+    · cases hd : C.decPeppi b with
+      | ok p => rw [hd] at h; simp only at h; split at h <;> cases h; simp
+      | err e => rw [hd] at h; cases h; simp
+      | panic x => exact absurd hd (C.peppi_np b x)
+    · cases hd : gameStart T b with
+      | ok p => rw [hd] at h; cases h
+      | err e => rw [hd] at h; cases h; simp
+      | panic x => exact absurd hd (gameStart_noPanic T b x)
+    · cases hd : gameEnd b with
+      | ok p => rw [hd] at h; cases h
+      | err e => rw [hd] at h; cases h; simp
+      | panic x => exact absurd hd (gameEnd_noPanic b x)
+    · cases hd : C.decMeta b with
+      | ok p => rw [hd] at h; cases h
+      | err e => rw [hd] at h; cases h; simp
+      | panic x => exact absurd hd (C.meta_np b x)
+    · split at h <;> cases h; simp
+    · cases hs : acc.start with
+      | none => rw [hs] at h; cases h; simp
+      | some st =>
+        rw [hs] at h
+        simp only at h
+        split at h
+        · cases h; exact finish_noPanic _ _ s
+        · split at h
+          · cases h; simp
+          · cases hd : readArrowFrames (C.decFrames b).2 with
+            | ok f => rw [hd] at h; cases h; exact finish_noPanic _ _ s
+            | err e => rw [hd] at h; cases h; simp
+            | panic x => exact absurd hd (readArrowFrames_noPanic _ x)
+    · cases h
+
+theorem peppiLoop_noPanic {χ : Type} (C : CodecT χ) (T : TextOracle) (skip t : Bool) :
+    ∀ (items : List TItem) (acc : PAcc χ) (s : String), peppiLoop T skip t acc (items.map (classifyT C.toCodec)) ≠ .panic s := by
+  intro items
+  induction items with
+  | nil =>
+    intro acc s
+    simp only [List.map_nil, peppiLoop]
+    split
+    · split
+      · exact finish_noPanic _ _ s
+      · simp
+    · exact finish_noPanic _ _ s
+  | cons it rest ih =>
+    intro acc s
+    rw [List.map_cons, peppiLoop_step]
+    cases hp : pstep T skip acc (classifyT C.toCodec it) with
+    | inl r => exact pstep_noPanic C T skip acc it r hp s
+    | inr acc' => exact ih acc' s
+
+/-- **the `.slpp` reader returns on every byte string**: a game or an error, never a panic (the function is total: it
+    terminates), whatever the bytes are — provided the external decoders do not panic -/
+theorem slppReadL_noPanic {χ : Type} (C : CodecT χ) (T : TextOracle) (skip : Bool) (bs : Bytes) (s : String) :
+    slppReadL C.toCodec T skip bs ≠ .panic s := by
+  unfold slppReadL peppiRead
+  exact peppiLoop_noPanic C T skip _ _ _ s
+
 /-! ### the laws of `CodecT` are jointly satisfiable -/
 
 /-- frames as `1, b` per byte, terminated by `0`: a decoder can tell a truncated stream -/
@@ -503,6 +595,7 @@ theorem slppReadL_cut_json (C : CodecT KVs) (T : TextOracle) (g : PGame KVs) (st
 #print axioms slppReadL_cut
 #print axioms slppReadL_written
 #print axioms exPGame_cut
+#print axioms slppReadL_noPanic
 #print axioms slppReadL_cut_json
 #print axioms slppRead_written_json2
 end Peppi
